@@ -29,6 +29,27 @@ contract(
             [MONO, ZERO, 'result[0] == 1 / (r + D[0] * a)', 'result[0] > 0']),
         d2s('reverse/default', 'reverse', {}, [], [MONO, RANGE, ZERO]),
         d2s('reverse/r', 'reverse', {'r': 'real'}, ['r > 0'], [MONO, ZERO, 'result[0] == (r - D[0]) / r']),
+        # data-derived scale from a covered quantile (plain and (quantile, value) forms)
+        d2s('gauss/quantile', 'gaussian', {'cover_quantile': 'real'},
+            ['0 < cover_quantile < 1', 'NpQuantile(D) > 0'], [MONO, RANGE, ZERO]),
+        d2s('recip/quantile', 'reciprocal', {'cover_quantile': 'real'},
+            ['0 < cover_quantile < 1', 'NpQuantile(D) > 0'], [MONO, RANGE, ZERO]),
+        d2s('exp/quantile2', 'exponential', {'cover_quantile': ('tuple', 'real', 'real')},
+            ['0 < cover_quantile[0] < 1', '0 < cover_quantile[1] < 1', 'NpQuantile(D) > 0'], [MONO, RANGE, ZERO]),
+        d2s('gauss/quantile2', 'gaussian', {'cover_quantile': ('tuple', 'real', 'real')},
+            ['0 < cover_quantile[0] < 1', '0 < cover_quantile[1] < 1', 'NpQuantile(D) > 0'], [MONO, RANGE, ZERO]),
+        # reported parameters: re-applying the transform with them is the explicit-parameter case above
+        d2s('exp/report', 'exponential', {'return_params': ('const', True)}, ['NpMax(D) > 0'],
+            ['result[1] > 0', 'result[0][0] == rexp(-D[0] / result[1])', 'result[0][1] == rexp(-D[1] / result[1])']),
+        d2s('gauss/report', 'gaussian', {'return_params': ('const', True)}, ['NpMax(D) > 0'],
+            ['result[1] > 0', 'result[0][0] == rexp(-(D[0] * D[0]) / (result[1] * result[1]))']),
+        d2s('reverse/report', 'reverse', {'return_params': ('const', True)}, ['NpMax(D) > 0'],
+            ['result[1] > 0', 'result[0][0] == (result[1] - D[0]) / result[1]']),
+        d2s('recip/report', 'reciprocal', {'return_params': ('const', True)}, [],
+            ['result[1] > 0', 'result[0][0] == 1 / (result[1] + D[0] * 1)']),
+        d2s('recip/report-quantile', 'reciprocal', {'return_params': ('const', True), 'cover_quantile': 'real'},
+            ['0 < cover_quantile < 1', 'NpQuantile(D) > 0'],
+            ['result[1] > 0', 'result[0][0] == 1 / (result[1] + D[0] * 1)']),
     ],
     theories=('reals',),
     props=('C19',),
@@ -57,6 +78,26 @@ contract(
         sq('exponential/default', 'exponential', {}, [], [SMONO, SRANGE]),
         sq('exponential/r', 'exponential', {'r': 'real'}, ['r > 0'], [SMONO, SRANGE, 'result[0] == 1 - rexp(-X[0] / r)']),
         sq('logistic/keep_sign', 'logistic', {'r': 'real', 'x0': 'real', 'keep_sign': ('const', True)}, ['r > 0'], [SMONO]),
+        # an explicit midpoint is documented as unsupported for these two methods: the result must not depend on it
+        sq('gaussian/r,x0', 'gaussian', {'r': 'real', 'x0': 'real'}, ['r > 0'],
+           [SMONO, SRANGE, 'result[0] == 1 - rexp(-(X[0] * X[0]) / (r * r))']),
+        sq('exponential/r,x0', 'exponential', {'r': 'real', 'x0': 'real'}, ['r > 0'],
+           [SMONO, SRANGE, 'result[0] == 1 - rexp(-X[0] / r)']),
+        sq('gaussian/base', 'gaussian', {'r': 'real', 'x0': 'real', 'base': 'real'}, ['r > 0', 'base > 1'], [SMONO, SRANGE]),
+        sq('exponential/base', 'exponential', {'r': 'real', 'x0': 'real', 'base': 'real'}, ['r > 0', 'base > 1'], [SMONO, SRANGE]),
+        sq('gaussian/keep_sign', 'gaussian', {'r': 'real', 'keep_sign': ('const', True)}, ['r > 0'], [SMONO]),
+        sq('exponential/keep_sign', 'exponential', {'r': 'real', 'keep_sign': ('const', True)}, ['r > 0'], [SMONO]),
+        sq('gaussian/quantile', 'gaussian', {'cover_quantile': 'real'}, ['0 < cover_quantile < 1', 'NpQuantile(X) > 0'], [SMONO, SRANGE]),
+        sq('exponential/quantile', 'exponential', {'cover_quantile': 'real'}, ['0 < cover_quantile < 1', 'NpQuantile(X) > 0'],
+           [SMONO, SRANGE]),
+        sq('logistic/quantile', 'logistic', {'cover_quantile': 'real'},
+           ['0 < cover_quantile < 1', 'cover_quantile != 0.5', 'NpMean(X) > 0'], [SMONO, SRANGE]),
+        sq('logistic/report', 'logistic', {'return_params': ('const', True)}, ['NpMean(X) > 0'],
+           ['result[1] > 0', 'result[0][0] == 1 / (1 + rexp(-(X[0] - result[2]) / result[1]))']),
+        sq('gaussian/report', 'gaussian', {'return_params': ('const', True)}, [],
+           ['result[1] > 0', 'result[0][0] == 1 - rexp(-(X[0] * X[0]) / (result[1] * result[1]))']),
+        sq('exponential/report', 'exponential', {'return_params': ('const', True)}, [],
+           ['result[1] > 0', 'result[0][0] == 1 - rexp(-X[0] / result[1])']),
     ],
     theories=('reals',),
     props=('C19',),
